@@ -11,7 +11,7 @@ def sh(cmd, cwd=None, timeout=1500):
 
 def one(item):
     prop, letter = item
-    src = "/tmp/out-%s" % prop
+    src = os.environ.get("SEEDED_SRC", "/tmp/out-") + prop
     patch, demo, notes = ("%s/%s-%s.%s" % (src, a, letter, b) for a, b in (("mutant", "diff"), ("demo", "py"), ("notes", "txt")))
     wt = "/tmp/vs-%s-%s" % (prop, letter)
     ran = []
@@ -24,14 +24,14 @@ def one(item):
             return prop, letter, False, "patch does not apply: " + out[-200:], ran
         rc_t, out_t = sh([PY, "-m", "pytest", "-q", "-p", "no:cacheprovider", "--timeout=900"], cwd=wt)
         ran.append({"cmd": "pytest (mutant applied)", "rc": rc_t, "tail": out_t.strip().splitlines()[-1] if out_t.strip() else ""})
-        rc_d, out_d = sh(["timeout", "300", PY, demo], cwd=wt)
+        rc_d, out_d = sh(["timeout", "600", PY, demo], cwd=wt)
         ran.append({"cmd": "demo.py (mutant applied)", "rc": rc_d, "tail": out_d.strip().splitlines()[-1][:200] if out_d.strip() else ""})
         sh(["git", "checkout", "--", "."], cwd=wt)
-        rc_c, out_c = sh(["timeout", "300", PY, demo], cwd=wt)
+        rc_c, out_c = sh(["timeout", "600", PY, demo], cwd=wt)
         ran.append({"cmd": "demo.py (clean tree)", "rc": rc_c})
         ok = rc_t == 0 and rc_d != 0 and rc_c == 0
         if ok:
-            dst = os.path.join(V, "seeded", "%s-%s" % (prop, letter))
+            dst = os.path.join(V, "seeded", "%s-%s%s" % (prop, os.environ.get("SEEDED_TAG", ""), letter))
             os.makedirs(dst, exist_ok=True)
             shutil.copy(patch, os.path.join(dst, "patch.diff"))
             shutil.copy(demo, os.path.join(dst, "demo.py"))
